@@ -58,7 +58,7 @@ func (e *env) replayFile(path string) error {
 func Run(c *vrun.Ctx) error {
 	c.Ev.Coverage.Rule = "TLC enumerates the signing contexts of Sighash.tla: algorithm (legacy, BIP143, BIP341 key path, BIP341+342 script path) x transaction shape (1-3 inputs, 0-3 outputs) x signed input x " +
 		"hash type byte (one representative per behaviour class on all shapes, all 256 bytes on an input with and one without a matching output) x script shape (no separator, separators executed / not executed / after the check, " +
-		"embedded signature push, CHECKMULTISIG, CHECKSIGADD, P2WPKH) x annex, with every single-field mutation, input/output insertion, removal and permutation, hash type and annex replacement; plus the signer table (standard output types x hash types). " +
+		"embedded signature push, CHECKMULTISIG, CHECKSIGADD, P2WPKH) x annex, with every single-field mutation, input/output insertion, removal and permutation, hash type and annex replacement; plus the signer table (standard output types x hash types; multisig cosigners signing in rounds x every pair of defined hash types x either order). " +
 		"Every state carries the digest as a token tree, the commitment set and the effect of each mutation; each is replayed on a random concrete transaction: rendered digest = Calc*SignatureHash, a signature over the rendered digest verifies in the engine, " +
 		"after each mutation the digest changes and the signature fails iff the specification says so, digests are equal across fresh midstates / shared HashCache / none, helper signatures are over the rendered digest and the helper's spend executes. " +
 		"distinct_nontrivial counts distinct (algorithm, script shape, hash type class, input, shape, annex) contexts, hash type bytes, (class, mutation, effect) triples and signer rows."
@@ -101,7 +101,7 @@ func Run(c *vrun.Ctx) error {
 	}
 	c.Logf("replayed: %s", e.st)
 	c.SetExtra("cases", e.st.export())
-	for _, k := range []string{"sig:shape", "sig:script", "sig:byte", "signer", "mutations", "digest-compared", "engine-runs", "signer-signatures"} {
+	for _, k := range []string{"sig:shape", "sig:script", "sig:byte", "signer", "mutations", "digest-compared", "engine-runs", "signer-signatures", "signer-rounds", "signer-rounds-anyonecanpay-differs"} {
 		if e.st.get(k) == 0 {
 			return fmt.Errorf("vacuous run: no %s", k)
 		}
